@@ -63,6 +63,12 @@ PairStep(e) ==
 
 \* observation-relative batch: judged on the contents the code itself reports
 EntrySet(es) == SeqSet(es)
+\* a search from the view at q0 (which exists), judged on the entries of that view
+FindFacetOK(E, f) ==
+    LET EV == AUnder(E, f.q0) IN
+    CASE f.kind = "find"       -> FindOK(EV, f.q, f.r)
+      [] f.kind = "find_exact" -> FindExactOK(EV, f.q, f.r)
+      [] f.kind = "find_lpm"   -> FindLpmOK(EV, f.q, f.r)
 PfxOf(o) == IF o = <<>> THEN <<>> ELSE <<o[1].p>>
 PfxsOf(s) == [i \in 1..Len(s) |-> s[i].p]
 ValsOf(s) == [i \in 1..Len(s) |-> s[i].v]
@@ -84,6 +90,8 @@ ObsStep(e) ==
          /\ q.ck = PfxsOf(ACover(E, q.q))                    \*   cover_keys
          /\ q.cv = ValsOf(ACover(E, q.q))                    \*   cover_values
          /\ q.children = AChildren(E, q.q)                   \* C10
+    /\ \A i \in 1..Len(e.vd) : ViewAtOK(E, e.vd[i].q, e.vd[i].d, FALSE)          \* C11
+    /\ \A i \in 1..Len(e.fd) : FindFacetOK(E, e.fd[i])                            \* C12
     /\ UNCHANGED <<mA, mB, drift>>
 
 ResetStep == mA' = EmptyMap /\ mB' = EmptyMap /\ drift' = 0
@@ -118,7 +126,9 @@ Expected(e) ==
                     lpm |-> ALpm(E, q.q), spm |-> ASpm(E, q.q), cover |-> ACover(E, q.q),
                     lpmp |-> PfxOf(ALpm(E, q.q)), spmp |-> PfxOf(ASpm(E, q.q)),
                     ck |-> PfxsOf(ACover(E, q.q)), cv |-> ValsOf(ACover(E, q.q)),
-                    children |-> AChildren(E, q.q)]]]
+                    children |-> AChildren(E, q.q)]],
+         vdok |-> [i \in 1..Len(e.vd) |-> ViewAtOK(E, e.vd[i].q, e.vd[i].d, FALSE)],
+         fdok |-> [i \in 1..Len(e.fd) |-> FindFacetOK(E, e.fd[i])]]
     ELSE IF e.a \in PairObservers THEN
         [kind |-> "pair", ret |-> PairObserve(mA, mB, e),
          absok |-> PairObserveOK(Entries(mA), Entries(mB), e, PairObserve(mA, mB, e))]
